@@ -247,54 +247,6 @@ pub fn vec_u32_bytes() {
     }
 }
 
-/// Value side of the witness-stack codec with a concrete shape and symbolic contents.
-fn vecvec_value(v: Vec<Vec<u8>>, total: usize) {
-    let mut out = [0u8; 8];
-    let mut w: &mut [u8] = &mut out[..];
-    let n = v.consensus_encode(&mut w);
-    let written = 8 - w.len();
-    assert!(matches!(n, Ok(k) if k == written) && written == total, "length = count byte + per item (length byte + payload)");
-    let mut rd: &[u8] = &out[..written];
-    match Vec::<Vec<u8>>::consensus_decode(&mut rd) {
-        Ok(v2) => {
-            assert!(rd.is_empty(), "decoder consumes exactly what the encoder wrote");
-            assert!(v2.len() == v.len());
-            let mut i = 0;
-            while i < v.len() {
-                assert!(v2[i].len() == v[i].len());
-                let mut j = 0;
-                while j < v[i].len() {
-                    assert!(v2[i][j] == v[i][j], "decode(encode(v)) == v");
-                    j += 1;
-                }
-                i += 1;
-            }
-            kani::cover!(true, "round trip compared");
-            core::mem::forget(v2);
-        }
-        Err(e) => {
-            core::mem::forget(e);
-            assert!(false, "decoder accepts what the encoder wrote");
-        }
-    }
-    core::mem::forget(n);
-    core::mem::forget(v);
-}
-//@ prop=C01 tier=quick mem=8 timeout=1200 desc="Vec<Vec<u8>> value side: shapes [], [[]], [[x]], [[x],[y,z]], [[],[x,y]] with symbolic contents: decode(encode(v)) == v, lengths exact"
-#[kani::proof]
-#[kani::unwind(5)]
-pub fn vecvec_values() {
-    let (x, y, z): (u8, u8, u8) = (kani::any(), kani::any(), kani::any());
-    let shape: u8 = kani::any();
-    match shape {
-        0 => vecvec_value(vec![], 1),
-        1 => vecvec_value(vec![vec![]], 2),
-        2 => vecvec_value(vec![vec![x]], 3),
-        3 => vecvec_value(vec![vec![x], vec![y, z]], 6),
-        _ => vecvec_value(vec![vec![], vec![x, y]], 5),
-    }
-}
-
 /// TxOut layout classes: A = asset length (1|33), V = value length (1|9|33), NC = nonce length (1|33), S = max script bytes.
 fn txout_shard<const A: usize, const V: usize, const NC: usize, const TOTAL: usize>() {
     let mut buf: [u8; TOTAL] = kani::any();
@@ -342,17 +294,19 @@ macro_rules! txout {
         }
     };
 }
-//@begin prop=C01 tier=quick secp=1 mem=8 timeout=1200 desc="TxOut decode->encode exact per (asset,value,nonce) layout class, script <= 2 bytes, all truncations; classes cover every prefix byte"
+//@begin prop=C01 tier=quick secp=1 mem=20 timeout=2400 desc="TxOut decode->encode exact per (asset,value,nonce) layout class, script <= 2 bytes, all truncations; classes cover every prefix byte"
 txout!(txout_1_1_1, 1, 1, 1);
 txout!(txout_1_9_1, 1, 9, 1);
+txout!(txout_33_9_1, 33, 9, 1);
+txout!(txout_33_9_33, 33, 9, 33);
+txout!(txout_33_33_33, 33, 33, 33);
+//@end
+//@begin prop=C01 tier=thorough secp=1 mem=20 timeout=3000 desc="TxOut decode->encode exact, remaining layout classes"
 txout!(txout_1_33_1, 1, 33, 1);
 txout!(txout_33_1_1, 33, 1, 1);
-txout!(txout_33_9_1, 33, 9, 1);
 txout!(txout_33_33_1, 33, 33, 1);
 txout!(txout_1_1_33, 1, 1, 33);
 txout!(txout_1_9_33, 1, 9, 33);
 txout!(txout_1_33_33, 1, 33, 33);
 txout!(txout_33_1_33, 33, 1, 33);
-txout!(txout_33_9_33, 33, 9, 33);
-txout!(txout_33_33_33, 33, 33, 33);
 //@end
